@@ -53,3 +53,20 @@ Theorem C06_encoding_injective : forall cs1 cs2,
   utf8_encode cs1 = utf8_encode cs2 -> cs1 = cs2.
 Proof. exact utf8_encode_injective. Qed.
 Print Assumptions C06_encoding_injective.
+
+From Coq Require Import Bool.
+From WS Require Import Base.GenPrelude Gen.GenAbnf Gen.GenCore Model.Xport Model.Send Model.Script Proofs.RecvApi.
+
+(* WebSocket.recv() on top of the message-level receive: a str is returned only for well-formed UTF-8, and the payload of a
+   data message is never altered -- with validation off a text payload that cannot be decoded is handed over as bytes. *)
+Theorem C06_recv_str_wellformed : forall w d w', ws_recv w = (RRecv 1 d, w') -> validate_utf8 d = true.
+Proof. exact ws_recv_str_wellformed. Qed.
+Print Assumptions C06_recv_str_wellformed.
+
+Theorem C06_recv_passthrough : forall w op f w',
+  ws_recv_data_frame (rdf_fuel w) false w = (Ok (op, f), w') ->
+  (op =? OPCODE_TEXT) || (op =? OPCODE_BINARY) = true ->
+  exists k, ws_recv w = (RRecv k (a_data f), w') /\ (k = 1 \/ k = 2).
+Proof. exact ws_recv_passthrough. Qed.
+Print Assumptions C06_recv_passthrough.
+
